@@ -1,5 +1,234 @@
 package ovgen
 
+import (
+	"fmt"
+	"go/ast"
+	"go/token"
+	"go/types"
+	"path/filepath"
+	"sort"
+	"strings"
+
+	"golang.org/x/tools/go/packages"
+)
+
+// instrumentMapRanges turns every `range` over a map in the given package directories into a
+// choice point: keys are collected, ordered canonically and then permuted by the explorer
+// (vrt.MapKeys). Loops whose whole body is `delete(m, k)` are left alone (order-insensitive by
+// construction). The rewrite is derived from the CURRENT working-tree files.
 func instrumentMapRanges(c Config, get func(string) (*derivedFile, error)) ([]string, error) {
-	return nil, nil // filled in with engine X (C01/C10)
+	var patterns []string
+	for _, d := range c.Profile.MapRanges {
+		patterns = append(patterns, "./"+d)
+	}
+	cfg := &packages.Config{
+		Mode:       packages.NeedName | packages.NeedFiles | packages.NeedSyntax | packages.NeedTypes | packages.NeedTypesInfo | packages.NeedImports | packages.NeedDeps,
+		Dir:        c.Repo,
+		BuildFlags: []string{"-tags=verif"},
+		Env:        append(cleanEnv(), "GOFLAGS=-mod=mod", "GOPROXY=off", "GOTOOLCHAIN=auto"),
+	}
+	pkgs, err := packages.Load(cfg, patterns...)
+	if err != nil {
+		return nil, fmt.Errorf("loading packages for map-range instrumentation: %w", err)
+	}
+	skip := map[string]bool{}
+	for _, f := range c.Profile.MapRangeSkipFiles {
+		skip[f] = true
+	}
+	type site struct {
+		rel       string
+		line, col int
+	}
+	var sites []site
+	for _, p := range pkgs {
+		if len(p.Errors) > 0 {
+			return nil, fmt.Errorf("package %s does not type-check: %v", p.PkgPath, p.Errors[0])
+		}
+		for _, f := range p.Syntax {
+			abs := p.Fset.Position(f.Pos()).Filename
+			rel, err := filepath.Rel(c.Repo, abs)
+			if err != nil || strings.HasPrefix(rel, "..") || strings.HasSuffix(rel, "_test.go") || skip[rel] {
+				continue
+			}
+			ast.Inspect(f, func(n ast.Node) bool {
+				rs, ok := n.(*ast.RangeStmt)
+				if !ok {
+					return true
+				}
+				t := p.TypesInfo.TypeOf(rs.X)
+				if t == nil {
+					return true
+				}
+				if _, isMap := t.Underlying().(*types.Map); !isMap {
+					return true
+				}
+				pos := p.Fset.Position(rs.Pos())
+				sites = append(sites, site{rel, pos.Line, pos.Column})
+				return true
+			})
+		}
+	}
+	sort.Slice(sites, func(i, j int) bool {
+		if sites[i].rel != sites[j].rel {
+			return sites[i].rel < sites[j].rel
+		}
+		return sites[i].line < sites[j].line
+	})
+	var names []string
+	byFile := map[string][]site{}
+	for _, s := range sites {
+		byFile[s.rel] = append(byFile[s.rel], s)
+	}
+	for rel, ss := range byFile {
+		d, err := get(rel)
+		if err != nil {
+			return nil, err
+		}
+		n := 0
+		want := map[string]bool{}
+		for _, s := range ss {
+			want[fmt.Sprintf("%d:%d", s.line, s.col)] = true
+		}
+		counter := 0
+		var rewriteBlock func(list []ast.Stmt) []ast.Stmt
+		rewriteStmt := func(st ast.Stmt) ast.Stmt {
+			rs, ok := st.(*ast.RangeStmt)
+			if !ok {
+				return st
+			}
+			pos := d.fset.Position(rs.Pos())
+			if !want[fmt.Sprintf("%d:%d", pos.Line, pos.Column)] {
+				return st
+			}
+			if isDeleteLoop(rs) {
+				return st
+			}
+			if !simpleExpr(rs.X) {
+				return st // evaluated once in the original; not rewritten (none in the repository today)
+			}
+			counter++
+			n++
+			siteName := fmt.Sprintf("%s:%d", rel, pos.Line)
+			names = append(names, siteName)
+			kv := fmt.Sprintf("__vk%d", counter)
+			okv := fmt.Sprintf("__vok%d", counter)
+			var pre []ast.Stmt
+			keyIdent, _ := rs.Key.(*ast.Ident)
+			valIdent, _ := rs.Value.(*ast.Ident)
+			tok := rs.Tok
+			if tok != token.DEFINE && tok != token.ASSIGN {
+				tok = token.DEFINE
+			}
+			idx := &ast.IndexExpr{X: rs.X, Index: ast.NewIdent(kv)}
+			if rs.Value != nil && !(valIdent != nil && valIdent.Name == "_") {
+				if tok == token.DEFINE {
+					pre = append(pre, &ast.AssignStmt{Lhs: []ast.Expr{rs.Value, ast.NewIdent(okv)}, Tok: token.DEFINE, Rhs: []ast.Expr{idx}})
+				} else {
+					pre = append(pre, &ast.DeclStmt{Decl: &ast.GenDecl{Tok: token.VAR, Specs: []ast.Spec{&ast.ValueSpec{Names: []*ast.Ident{ast.NewIdent(okv)}, Type: ast.NewIdent("bool")}}}})
+					pre = append(pre, &ast.AssignStmt{Lhs: []ast.Expr{rs.Value, ast.NewIdent(okv)}, Tok: token.ASSIGN, Rhs: []ast.Expr{idx}})
+				}
+			} else {
+				pre = append(pre, &ast.AssignStmt{Lhs: []ast.Expr{ast.NewIdent("_"), ast.NewIdent(okv)}, Tok: token.DEFINE, Rhs: []ast.Expr{idx}})
+			}
+			pre = append(pre, &ast.IfStmt{Cond: &ast.UnaryExpr{Op: token.NOT, X: ast.NewIdent(okv)}, Body: &ast.BlockStmt{List: []ast.Stmt{&ast.BranchStmt{Tok: token.CONTINUE}}}})
+			if rs.Key != nil && !(keyIdent != nil && keyIdent.Name == "_") {
+				pre = append([]ast.Stmt{&ast.AssignStmt{Lhs: []ast.Expr{rs.Key}, Tok: tok, Rhs: []ast.Expr{ast.NewIdent(kv)}}}, pre...)
+			}
+			body := &ast.BlockStmt{List: append(pre, rs.Body.List...)}
+			call := &ast.CallExpr{Fun: &ast.SelectorExpr{X: ast.NewIdent("vrt"), Sel: ast.NewIdent("MapKeys")},
+				Args: []ast.Expr{&ast.BasicLit{Kind: token.STRING, Value: fmt.Sprintf("%q", siteName)}, rs.X}}
+			return &ast.RangeStmt{Key: ast.NewIdent("_"), Value: ast.NewIdent(kv), Tok: token.DEFINE, X: call, Body: body, For: rs.For}
+		}
+		rewriteBlock = func(list []ast.Stmt) []ast.Stmt {
+			for i, st := range list {
+				if ls, ok := st.(*ast.LabeledStmt); ok {
+					ls.Stmt = rewriteStmt(ls.Stmt)
+					continue
+				}
+				list[i] = rewriteStmt(st)
+			}
+			return list
+		}
+		ast.Inspect(d.file, func(nd ast.Node) bool {
+			switch x := nd.(type) {
+			case *ast.BlockStmt:
+				x.List = rewriteBlock(x.List)
+			case *ast.CaseClause:
+				x.Body = rewriteBlock(x.Body)
+			case *ast.CommClause:
+				x.Body = rewriteBlock(x.Body)
+			}
+			return true
+		})
+		if n > 0 {
+			addImport(d.file, ShimBase+"vrt", "vrt")
+			d.changed = true
+		}
+	}
+	sort.Strings(names)
+	return names, nil
+}
+
+func cleanEnv() []string {
+	var env []string
+	for _, e := range osEnviron() {
+		if strings.HasPrefix(e, "GOFLAGS=") || strings.HasPrefix(e, "GOPROXY=") || strings.HasPrefix(e, "GOTOOLCHAIN=") || strings.HasPrefix(e, "GOSUMDB=") {
+			continue
+		}
+		env = append(env, e)
+	}
+	return env
+}
+
+func simpleExpr(e ast.Expr) bool {
+	switch x := e.(type) {
+	case *ast.Ident:
+		return true
+	case *ast.SelectorExpr:
+		return simpleExpr(x.X)
+	case *ast.ParenExpr:
+		return simpleExpr(x.X)
+	case *ast.StarExpr:
+		return simpleExpr(x.X)
+	}
+	return false
+}
+
+// isDeleteLoop: `for k := range m { delete(m, k) }`
+func isDeleteLoop(rs *ast.RangeStmt) bool {
+	if len(rs.Body.List) != 1 {
+		return false
+	}
+	es, ok := rs.Body.List[0].(*ast.ExprStmt)
+	if !ok {
+		return false
+	}
+	c, ok := es.X.(*ast.CallExpr)
+	if !ok {
+		return false
+	}
+	id, ok := c.Fun.(*ast.Ident)
+	return ok && id.Name == "delete"
+}
+
+func addImport(f *ast.File, path, name string) {
+	for _, im := range f.Imports {
+		if im.Path.Value == fmt.Sprintf("%q", path) {
+			return
+		}
+	}
+	spec := &ast.ImportSpec{Name: ast.NewIdent(name), Path: &ast.BasicLit{Kind: token.STRING, Value: fmt.Sprintf("%q", path)}}
+	for _, d := range f.Decls {
+		if gd, ok := d.(*ast.GenDecl); ok && gd.Tok == token.IMPORT {
+			gd.Specs = append(gd.Specs, spec)
+			if !gd.Lparen.IsValid() {
+				gd.Lparen = gd.Pos()
+			}
+			f.Imports = append(f.Imports, spec)
+			return
+		}
+	}
+	gd := &ast.GenDecl{Tok: token.IMPORT, Specs: []ast.Spec{spec}}
+	f.Decls = append([]ast.Decl{gd}, f.Decls...)
+	f.Imports = append(f.Imports, spec)
 }
